@@ -637,7 +637,7 @@ fn family_builder() {
         let rs = mk().with_rule(sym_rule.clone()).unwrap().build();
         let os = block_on(rs.evaluate_value(&Value::None)).unwrap();
         if !matches!(&os[0].value, Ok(Value::Int(i)) if *i == want) {
-            rep.fail(&["C15", "C10"], "with_symbol.exact", what, &format!("{:?}", os[0].value.as_ref().map_err(classify)), &format!("Ok(Int({want}))"));
+            rep.fail(&["C15"], "with_symbol.exact", what, &format!("{:?}", os[0].value.as_ref().map_err(classify)), &format!("Ok(Int({want}))"));
         }
     }
     rep.finish();
